@@ -195,6 +195,7 @@ structure MDec where
   trace : Nat
   keep : Bool
   dry : Bool
+  rate : Nat := 0          -- the decision's sample rate as queued (0: not observed)
 
 structure MSt where
   dry : Bool := false
@@ -272,7 +273,15 @@ def onForward (m : MSt) (path : String) (viaTrace : Option Nat) (f : FwdObs) : M
           [fail "C02" s!"C02:dropped-trace-forwarded:{path}" s!"span {sid} of dropped trace {t} forwarded (dry run off)"] ++
           (if path != "drain" then [fail "C01" "C01:late-span-disobeys:drop-forwarded" s!"late span {sid} forwarded although trace {t} was dropped"] else [])
          else []) ++
-        (if marker != "-" then [fail "C05" s!"C05:marker-without-dryrun:{path}" s!"span {sid} carries dryrun marker {marker} with dry run off"] else [])
+        (if marker != "-" then [fail "C05" s!"C05:marker-without-dryrun:{path}" s!"span {sid} carries dryrun marker {marker} with dry run off"] else []) ++
+        -- C04 on the on-time path (the real, long-lived sendTraces goroutine): outside dry run the
+        -- forwarded rate is max(client,1) x the rate of the decision that queued the trace
+        (match path == "drain", ds.getLast? with
+         | true, some d =>
+           if d.rate != 0 && f.rate != (norm1 client * d.rate) % 18446744073709551616 then
+             [fail "C04" "C04:rate-not-composed:on-time" s!"span {sid} forwarded (dry run off) with rate {f.rate}, client sent {client}, trace rate {d.rate}"]
+           else []
+         | _, _ => [])
        else
         (if path == "stress" then
            (if marker != "-" then [fail "C05" "C05:marker-on-stress-path" s!"span {sid} kept by stress relief carries dryrun marker {marker}"] else [])
@@ -296,7 +305,10 @@ def onTook (m : MSt) (entries : String) : MSt :=
     match tok.splitOn ":" with
     | t :: k :: _ => match t.toNat? with
       | some t =>
-        let m := { m with decs := m.decs ++ [{ trace := t, keep := k == "k", dry := m.dry }],
+        let rate := match tok.splitOn ":" with
+          | _ :: _ :: r :: _ => r.toNat?.getD 0
+          | _ => 0
+        let m := { m with decs := m.decs ++ [{ trace := t, keep := k == "k", dry := m.dry, rate := rate }],
                           bufd := m.bufd.filter (· != t) }
         if k == "k" then m.touch t else m
       | none => m
